@@ -140,6 +140,21 @@ fn synth_case(_ctx: &Ctx, case: u64, r: &mut Rng, rep: &mut Report) {
             }
         }
     }
+    // a changed file may just as well carry an OLDER mtime than the parent's version (restored from an archive, clock set
+    // back): still a changed mtime
+    if !two_parents {
+        let keys: Vec<crate::model::PathKey> = m2.entries.keys().cloned().collect();
+        for k in keys {
+            let (Some(o), Some(e)) = (m1.entries.get(&k), m2.entries.get(&k)) else { continue };
+            if let (Kind::File(ob), Kind::File(nb)) = (&o.kind, &e.kind) {
+                if ob != nb && ob.len() == nb.len() && r.chance(1, 2) {
+                    let older = (o.mtime.0 - 1 - r.irange(0, 5000), o.mtime.1);
+                    m2.entries.get_mut(&k).unwrap().mtime = older;
+                    rep.count("changed_files_with_older_mtime", 1);
+                }
+            }
+        }
+    }
     // inodes may change (file replaced) - irrelevant for the statement
     let inode_base2 = if inode_base != 0 && r.chance(1, 3) { 5000 } else { inode_base };
     let ign_ctime = r.chance(1, 3);
